@@ -228,6 +228,12 @@ Proof.
   - vm_compute. reflexivity.
 Qed.
 
+Example clean_utf8_examples :
+  clean_utf8 [x61; xc3; xa9; xe2; x82; xac; xf0; x9f; x98; x80; x00; x7f] = true /\
+  clean_utf8 [xef; xbf; xbd] = false /\ clean_utf8 [xff] = false /\ clean_utf8 [xed; xa0; x80] = false /\
+  clean_utf8 [xc0; x80] = false /\ valid_utf8 [xef; xbf; xbd] = true.
+Proof. vm_compute. repeat split. Qed.
+
 Example same_content_example :
   same_content (JObj [(bs "a", JInt 1); (bs "b", JArr [JObj [(bs "x", JNull); (bs "y", JInt 2)]])])
                (JObj [(bs "b", JArr [JObj [(bs "y", JInt 2); (bs "x", JNull)]]); (bs "a", JInt 1)]).
